@@ -1823,7 +1823,13 @@ impl TypeChecker {
             return Ok(());
         }
         match (self.find_type(a), self.find_type(b)) {
-            (Type::Unknown, _) | (_, Type::Unknown) => Ok(()),
+            (Type::Unknown, _) | (_, Type::Unknown) => {
+                // We cannot tell yet - remember the requirement on both sides. These might be
+                // elements of tuples, which nothing else keeps an eye on.
+                self.add_constraint(a, span, Constraint::Add(b));
+                self.add_constraint(b, span, Constraint::Add(a));
+                Ok(())
+            }
 
             (Type::Float, Type::Float) | (Type::Int, Type::Int) | (Type::Str, Type::Str) => Ok(()),
 
@@ -1861,7 +1867,13 @@ impl TypeChecker {
             return Ok(());
         }
         match (self.find_type(a), self.find_type(b)) {
-            (Type::Unknown, _) | (_, Type::Unknown) => Ok(()),
+            (Type::Unknown, _) | (_, Type::Unknown) => {
+                // We cannot tell yet - remember the requirement on both sides. These might be
+                // elements of tuples, which nothing else keeps an eye on.
+                self.add_constraint(a, span, Constraint::Sub(b));
+                self.add_constraint(b, span, Constraint::Sub(a));
+                Ok(())
+            }
 
             (Type::Float, Type::Float) | (Type::Int, Type::Int) => Ok(()),
 
@@ -1899,7 +1911,13 @@ impl TypeChecker {
             return Ok(());
         }
         match (self.find_type(a), self.find_type(b)) {
-            (Type::Unknown, _) | (_, Type::Unknown) => Ok(()),
+            (Type::Unknown, _) | (_, Type::Unknown) => {
+                // We cannot tell yet - remember the requirement on both sides. These might be
+                // elements of tuples, which nothing else keeps an eye on.
+                self.add_constraint(a, span, Constraint::Mul(b));
+                self.add_constraint(b, span, Constraint::Mul(a));
+                Ok(())
+            }
 
             (Type::Float, Type::Float) | (Type::Int, Type::Int) => Ok(()),
 
@@ -1937,8 +1955,13 @@ impl TypeChecker {
             return Ok(());
         }
         match (self.find_type(a), self.find_type(b)) {
-            (Type::Unknown, _) => Ok(()),
-            (_, Type::Unknown) => Ok(()),
+            (Type::Unknown, _) | (_, Type::Unknown) => {
+                // We cannot tell yet - remember the requirement on both sides. These might be
+                // elements of tuples, which nothing else keeps an eye on.
+                self.add_constraint(a, span, Constraint::DivTop(b));
+                self.add_constraint(b, span, Constraint::DivBot(a));
+                Ok(())
+            }
 
             (Type::Float | Type::Int, Type::Float | Type::Int) => Ok(()),
 
@@ -2040,7 +2063,13 @@ impl TypeChecker {
             return Ok(());
         }
         match (self.find_type(a), self.find_type(b)) {
-            (Type::Unknown, _) | (_, Type::Unknown) => Ok(()),
+            (Type::Unknown, _) | (_, Type::Unknown) => {
+                // We cannot tell yet - remember the requirement on both sides. These might be
+                // elements of tuples, which nothing else keeps an eye on.
+                self.add_constraint(a, span, Constraint::Cmp(b));
+                self.add_constraint(b, span, Constraint::Cmp(a));
+                Ok(())
+            }
 
             (Type::Float, Type::Float)
             | (Type::Int, Type::Int)
